@@ -129,13 +129,13 @@ pub trait RestartStrategy<A: Actor> {
     fn refresh(actor: A, ctx: &mut Context<A>, Tracked(w): Tracked<&mut World>) -> (r: DynResult<A>)
         requires old(w).lc.ph is Running, old(w).lc.restart_pending, old(w).lc.pending is None, old(w).lc.gid == actor.gid(),   // @ob refresh.pre C07
         ensures
-            ctx_stable(old(ctx), final(ctx)),                                                                                   // @ob refresh.a-restart-releases-no-child-and-keeps-the-links C16,C15
+            ctx_stable(old(ctx), final(ctx)),                                                                                   // @ob refresh.a-restart-releases-no-child-and-keeps-the-links C16,C15,C05
             Self::kind() is Ignore ==> r is Ok && r->Ok_0.gid() == actor.gid() && same_world(old(w), final(w)),                 // @ob refresh.nonrestartable-ignores C07
             !(Self::kind() is Ignore) ==> (r is Ok ==> final(w).lc.ph is Running && final(w).lc.pending is None && final(w).lc.gid == r->Ok_0.gid()
-                    && final(w).lc.stream == old(w).lc.stream && final(w).lc.run_slot == old(w).lc.run_slot && final(w).lc.inc == old(w).lc.inc + 1 && final(w).cfg_timeout == old(w).cfg_timeout),   // @ob refresh.new-incarnation-started C07,C03,C17
+                    && final(w).lc.stream == old(w).lc.stream && final(w).lc.run_slot == old(w).lc.run_slot && final(w).lc.inc == old(w).lc.inc + 1 && final(w).cfg_timeout == old(w).cfg_timeout),   // @ob refresh.new-incarnation-started C07,C03,C17,C02,C04,C06
             !(Self::kind() is Ignore) ==> (r is Ok ==> final(w).lc.timers_live),                                                   // @ob refresh.timers-of-the-new-incarnation-are-left-alone C15,C10,C07
-            !(Self::kind() is Ignore) ==> (r is Err ==> final(w).lc.ph is Failed),                                                // @ob refresh.start-error-fails C07,C03,C17,C06
-            Self::kind() is Same ==> (r is Ok ==> r->Ok_0.gid() == actor.gid() && final(w).lc.recreated == old(w).lc.recreated),  // @ob refresh.default-keeps-value C07
+            !(Self::kind() is Ignore) ==> (r is Err ==> final(w).lc.ph is Failed),                                                // @ob refresh.start-error-fails C07,C03,C17,C06,C02,C04
+            Self::kind() is Same ==> (r is Ok ==> r->Ok_0.gid() == actor.gid() && final(w).lc.recreated == old(w).lc.recreated),  // @ob refresh.default-keeps-value C07,C02,C04,C17,C06
             Self::kind() is Fresh ==> (r is Ok ==> final(w).lc.recreated == old(w).lc.recreated + 1),                            // @ob refresh.recreate-uses-default C07
     ;
 }
